@@ -44,9 +44,9 @@ def ltl_eval(text, vs, data, n):
     return impl.guarded(go)
 
 
-def stl_eval(text, vs, data, n):
+def stl_eval(text, vs, data, n, **kw):
     def go():
-        s = impl.make_spec("offd", text, vs)
+        s = impl.make_spec("offd", text, vs, **kw)
         s.parse()
         ds = {"time": list(range(n))}
         ds.update({v: list(data[v]) for v in vs})
@@ -102,23 +102,33 @@ def check_case(ctx, f, data, n, rng):
 
 
 def check_unless(ctx, rng):
-    g = F.Gen(rng, VARS, F.ALL_DISCRETE_OFFLINE - {"fn"}, max_bound=3)
+    # sometimes every bound carries an explicit unit that is not the default unit (default ms, period 1 s, bounds in s)
+    units = rng.random() < 0.5
+    g = F.Gen(rng, VARS, (F.ALL_DISCRETE_OFFLINE - {"fn", "future"}) if units else (F.ALL_DISCRETE_OFFLINE - {"fn"}), max_bound=3)
     p, q = g.formula(rng.choice([0, 1, 2])), g.formula(rng.choice([0, 1, 2]))
+    if units and rng.random() < 0.7:
+        # the left operand (which the sugar uses twice) contains a bounded operator of its own
+        a0 = rng.randint(0, 2)
+        p = ("tb1", rng.choice(["once", "hist", "ev", "alw"]), a0, a0 + rng.randint(0, 2), g.formula(rng.choice([0, 1])))
     a, b = g.bounds()
     n = rng.randint(1, 8)
     vs = sorted(set(F.variables(p)) | set(F.variables(q))) or ["a"]
     data = F.gen_trace(rng, vs, n)
     st = FR.Style(None)
-    pt, qt = "(" + FR.render(p, st)[0] + ")", "(" + FR.render(q, st)[0] + ")"
-    timed = rng.random() < 0.7
+    bf = (lambda k: "%ds" % k) if units else (lambda k: str(k))
+    kw = dict(unit="ms", sampling=(1, "s", 0.1)) if units else {}
+    pt, qt = "(" + FR.render(p, st, bf)[0] + ")", "(" + FR.render(q, st, bf)[0] + ")"
+    timed = units or rng.random() < 0.7
     if timed:
-        lhs = "out = %s unless[%d,%d] %s" % (pt, a, b, qt)
-        rhs = "out = (always[0,%d] %s) or (%s until[%d,%d] %s)" % (b, pt, pt, a, b, qt)
+        lhs = "out = %s unless[%s,%s] %s" % (pt, bf(a), bf(b), qt)
+        rhs = "out = (always[%s,%s] %s) or (%s until[%s,%s] %s)" % (bf(0), bf(b), pt, pt, bf(a), bf(b), qt)
     else:
         lhs = "out = %s unless %s" % (pt, qt)
         rhs = "out = (always %s) or (%s until %s)" % (pt, pt, qt)
-    l, r = stl_eval(lhs, vs, data, n), stl_eval(rhs, vs, data, n)
-    rep = {"kind": "unless", "lhs": lhs, "rhs": rhs, "data": data, "n": n, "impl_lhs": l, "impl_rhs": r}
+    l, r = stl_eval(lhs, vs, data, n, **kw), stl_eval(rhs, vs, data, n, **kw)
+    rep = {"kind": "unless", "units": units, "lhs": lhs, "rhs": rhs, "data": data, "n": n, "impl_lhs": l, "impl_rhs": r}
+    if units:
+        ctx.count("unless-with-units")
     ctx.nontrivial.add((lhs, str(data)))
     if l[0] != "ok" or r[0] != "ok":
         return Violation("unless sugar: %r / %r raised %r / %r" % (lhs, rhs, l[:2], r[:2]), rep, stream="spell/unless")
@@ -127,8 +137,8 @@ def check_unless(ctx, rng):
     # the same sugar through the other monitors: online after pastify (bounded future only), dense-time offline parse
     if timed and not F.has_unbounded_future(p) and not F.has_unbounded_future(q):
         ctx.count("unless-online-pastified")
-        lo = impl.run_online_discrete(lhs, vs, data, n, pastify=True)
-        ro = impl.run_online_discrete(rhs, vs, data, n, pastify=True)
+        lo = impl.run_online_discrete(lhs, vs, data, n, pastify=True, **kw)
+        ro = impl.run_online_discrete(rhs, vs, data, n, pastify=True, **kw)
         rep = dict(rep, online_lhs=lo, online_rhs=ro)
         if lo[0] != ro[0] or (lo[0] == "ok" and not same_vals(lo[1], ro[1])):
             return Violation("online monitors of the pastified %r and %r differ: %r vs %r" % (lhs, rhs, lo[:2], ro[:2]), rep,
@@ -296,11 +306,12 @@ def replay(ctx, obj):
         ok = b[0] == "ok" and o[0] == "ok" and b[1][0] == o[1][0] and same_vals(b[1][1], o[1][1])
         return ok, ("variant agrees" if ok else "variant differs: %r vs %r" % (o, b))
     if obj.get("kind") == "unless":
-        l, r = stl_eval(obj["lhs"], vs, data, obj["n"]), stl_eval(obj["rhs"], vs, data, obj["n"])
+        kw = dict(unit="ms", sampling=(1, "s", 0.1)) if obj.get("units") else {}
+        l, r = stl_eval(obj["lhs"], vs, data, obj["n"], **kw), stl_eval(obj["rhs"], vs, data, obj["n"], **kw)
         ok = l[0] == "ok" and r[0] == "ok" and l[1][0] == r[1][0] and same_vals(l[1][1], r[1][1])
         if ok and "online_lhs" in obj:
-            lo = impl.run_online_discrete(obj["lhs"], vs, data, obj["n"], pastify=True)
-            ro = impl.run_online_discrete(obj["rhs"], vs, data, obj["n"], pastify=True)
+            lo = impl.run_online_discrete(obj["lhs"], vs, data, obj["n"], pastify=True, **kw)
+            ro = impl.run_online_discrete(obj["rhs"], vs, data, obj["n"], pastify=True, **kw)
             ok = lo[0] == ro[0] and (lo[0] != "ok" or same_vals(lo[1], ro[1]))
             l, r = lo, ro
         return ok, ("unless sugar agrees" if ok else "unless sugar differs: %r vs %r" % (l, r))
